@@ -1,5 +1,170 @@
-import ColoVerif.Model.TranspCert
+/-
+C13 — the transportation solver returns a feasible minimum-cost plan; `toAssignment` gives each
+source the sink receiving most of it.
+
+All statements are about `ColoVerif.Transp` (Model/Transp.lean, Model/TranspCert.lean), the
+definitions `drv_C13` executes against the C++ (`harness/h_C13.cpp`).
+-/
+import ColoVerif.Proofs.TranspCert
+import ColoVerif.Proofs.Transp
+import ColoVerif.Proofs.TranspSsp
+
 namespace ColoVerif.C13
 open ColoVerif.Transp
+
+/-- **Optimality from a certificate (any size).**  If `checkCert` accepts the plan `x` with the
+potentials `u` (sources), `v` (sinks), then `x` is feasible and no feasible plan is cheaper
+(weak duality + complementary slackness; costs are the problem's integer costs). -/
+theorem cert_optimal (p : Problem) (x : Mat) (u v : List Int) (h : checkCert p x u v = true) :
+    Feasible p x ∧ ∀ y, Feasible p y → costOf p x ≤ costOf p y := by
+  simp only [checkCert, Bool.and_eq_true] at h
+  obtain ⟨⟨hp, hd⟩, hs⟩ := h
+  have hx := (primalOk_iff p x).mp hp
+  refine ⟨hx, fun y hy => ?_⟩
+  rw [slack_tight p x u v hx hs]
+  exact weak_duality p y u v hy hd
+
+/-- what the driver prints as `cert ok`: the computed potentials are accepted, hence optimal -/
+theorem certifies_optimal (p : Problem) (x : Mat) (h : certifies p x = true) :
+    Feasible p x ∧ ∀ y, Feasible p y → costOf p x ≤ costOf p y := by
+  simp only [certifies, Bool.and_eq_true] at h
+  exact cert_optimal p x _ _ h.2
+
+/-- non-vacuity of `cert_optimal`: a 2 sinks × 2 sources plan with its certificate -/
+example : checkCert (Problem.make [2, 2] [2, 1] [[0, 3], [1, 1]]) [[2, 0], [0, 1]] [0, 1] [0, 0] = true := by
+  decide
+
+/-- **`toAssignment` = argmax with the code's tie-breaking (first maximum).**  For a plan without
+negative entries in column `src`, the assigned sink is a valid index, receives at least as much of
+`src` as every sink, and strictly more than every earlier sink. -/
+theorem toAssignment_argmax (p : Problem) (src : Nat) (hs : src < p.nbSources) (hn : 0 < p.nbSinks)
+    (h0 : ∀ i, i < p.nbSinks → 0 ≤ p.allocation i src) :
+    p.toAssignment.length = p.nbSources ∧
+    p.toAssignment.getD src 0 < p.nbSinks ∧
+    (∀ i, i < p.nbSinks → p.allocation i src ≤ p.allocation (p.toAssignment.getD src 0) src) ∧
+    (∀ i, i < p.toAssignment.getD src 0 → p.allocation i src < p.allocation (p.toAssignment.getD src 0) src) := by
+  have e := toAssignmentOf_getD p.allocations p.nbSinks p.nbSources src hs
+  have s := argmaxFrom_spec p.allocations src p.nbSinks hn h0
+  refine ⟨by simp [Problem.toAssignment, Problem.toAssignmentOf], ?_⟩
+  unfold Problem.toAssignment Problem.allocation
+  rw [e]
+  exact s
+
+example : (Problem.mk [3, 3] [2, 2] [[0, 0], [0, 0]] [[1, 2], [1, 0]]).toAssignment = [0, 0] := by decide
+
+/-- **`increaseCapacity` covers the demand.**  Afterwards total capacity ≥ total demand, no capacity
+decreased, nothing else changed; when capacity was short the problem becomes exactly balanced. -/
+theorem increaseCapacity_covers (p : Problem) (hn : 0 < p.nbSinks) :
+    p.increaseCapacity.totalDemand ≤ p.increaseCapacity.totalCapacity ∧
+    (∀ i, p.capacity i ≤ p.increaseCapacity.capacity i) ∧
+    p.increaseCapacity.nbSinks = p.nbSinks ∧
+    p.increaseCapacity.demands = p.demands ∧ p.increaseCapacity.costs = p.costs ∧
+    p.increaseCapacity.allocations = p.allocations ∧
+    (p.totalCapacity < p.totalDemand → p.increaseCapacity.totalCapacity = p.totalDemand) := by
+  unfold Problem.increaseCapacity
+  by_cases hm : p.missing ≤ 0
+  · rw [if_pos hm]
+    unfold Problem.missing at hm
+    refine ⟨by omega, fun _ => le_refl _, rfl, rfl, rfl, rfl, fun h => by omega⟩
+  · rw [if_neg hm]
+    have hpos : 0 < p.missing := by omega
+    obtain ⟨ha, hr0, hrn⟩ := tdiv_facts p.missing p.nbSinks hpos hn
+    have hsum := incCaps_sum p.added (p.missing - p.added * (p.nbSinks : Int)) p.capacities 0
+    have hcnt : min (max (p.missing - p.added * (p.nbSinks : Int) - ((0 : Nat) : Int)) 0) (p.capacities.length : Int)
+        = p.missing - p.added * (p.nbSinks : Int) := by
+      unfold Problem.added Problem.nbSinks at *
+      push_cast; omega
+    rw [hcnt] at hsum
+    have htot : (Problem.incCaps p.added (p.missing - p.added * (p.nbSinks : Int)) 0 p.capacities).sum
+        = p.totalDemand := by
+      rw [hsum]; unfold Problem.missing Problem.totalCapacity Problem.nbSinks; ring
+    refine ⟨?_, ?_, ?_, rfl, rfl, rfl, fun _ => ?_⟩
+    · simp only [Problem.totalDemand, Problem.totalCapacity] at htot ⊢
+      omega
+    · intro i
+      exact incCaps_getD _ _ ha p.capacities 0 i
+    · simp [Problem.nbSinks, incCaps_length]
+    · simpa [Problem.totalCapacity] using htot
+
+example : (Problem.make [1, 1, 1] [4, 4] [[0, 0], [0, 0], [0, 0]]).increaseCapacity.capacities = [3, 3, 2] := by
+  decide
+
+/-! ### the solver -/
+
+/-- **Universal statement of feasibility + termination (not proved for all inputs).**  On every
+well-formed problem (`check()` passes) with total demand ≤ total capacity the model of `solve()` ends
+without running out of fuel, without a failed `assert` and without undefined behaviour, and its plan
+is feasible. -/
+def ssp_feasible_full_statement : Prop :=
+  ∀ p : Problem, p.check = true → p.totalDemand ≤ p.totalCapacity →
+    ∃ q, solve p = .ok q ∧ Feasible q q.allocations
+
+/-- the termination half on its own: every fuelled loop of the model ends before its fuel does -/
+def ssp_terminates_full_statement : Prop :=
+  ∀ p : Problem, p.check = true → p.totalDemand ≤ p.totalCapacity → ∃ q, solve p = .ok q
+
+/-- **Flow conservation of `sendSource` (all inputs, any size).**  Whenever the model of `solve()`
+returns a result at all — i.e. no `assert` of the code failed, no `top()` of an empty queue / index
+out of range / cycle in `sinkParent_` occurred and no loop ran out of fuel — the problem data is
+unchanged, *every source is fully allocated* and *no sink exceeds its capacity*.
+(Invariant: column sums = amount sent so far, row sum + `remainingCapa_` = capacity,
+`remainingCapa_ ≥ 0`; the amount moved along the parent chain is at most the free capacity at the
+root, and both walks along `sinkParent_` end at the same root.)
+
+Missing w.r.t. `ssp_feasible_full_statement`: (1) non-negativity of every entry — it needs the lazy
+priority-queue invariant (`top()` has a positive allocation, at least the amount moved) and the
+correctness of the libstdc++ heap operations; (2) that `solve` returns `.ok` (termination of
+`updateTree`, acyclicity of `sinkParent_`, the `assert`s).  Both are established per explored
+instance instead: the driver's answer `status ok` / `cert ok` (`checkCert` includes non-negativity)
+is compared with the real code on every case, and the direct oracle checks them on the C++ output. -/
+theorem ssp_feasible_partial (p q : Problem) (hc : ∀ i, 0 ≤ p.capacity i) (hd : ∀ j, 0 ≤ p.demand j)
+    (h : solve p = .ok q) :
+    q.capacities = p.capacities ∧ q.demands = p.demands ∧ q.costs = p.costs ∧
+    (∀ j, j < p.nbSources → colSum q.allocations p.nbSinks j = p.demand j) ∧
+    (∀ i, rowSum q.allocations p.nbSources i ≤ p.capacity i) := by
+  unfold solve at h
+  split at h; · exact absurd h (by simp)
+  rename_i s hs
+  injection h with h; subst h
+  unfold run at hs
+  have hi := runSources_inv p hd _ _ _ _ (initSt_inv p hc) hs
+  refine ⟨rfl, rfl, rfl, fun j hj => ?_, fun i => ?_⟩
+  · have := hi.col j
+    rw [count_sorted] at this
+    simp only [hj, if_true] at this
+    simpa using this
+  · have h1 := hi.row i
+    have h2 := hi.rem i
+    simp only [] at h1 h2 ⊢
+    omega
+
+/- Non-vacuity of `solve p = .ok q`: `solve` uses `List.mergeSort` and the well-founded `pushHeapLoop`,
+which the kernel's `decide` does not unfold; the compiled driver answers `status ok` on every one of
+the explored instances (≈70 000 per quick run, see evidence/C13.json). -/
+
+/-- **Universal optimality (not proved for all inputs).** -/
+def ssp_optimal_full_statement : Prop :=
+  ∀ p : Problem, p.check = true → p.totalDemand ≤ p.totalCapacity →
+    ∃ q, solve p = .ok q ∧ Feasible q q.allocations ∧ ∀ y, Feasible q y → costOf q q.allocations ≤ costOf q y
+
+/-- **Per-instance route to optimality.**  If on an instance the driver's verdict is `cert ok`
+(`certifies` holds for the plan returned by the model, which the correspondence shows to be the
+C++ plan entry by entry) then that plan is feasible — non-negative included — and of minimum cost
+among *all* feasible plans.  Optimality of every explored instance follows from this theorem, not
+from comparison with another solver.  Missing w.r.t. `ssp_optimal_full_statement`: that
+`certifies` holds for every input (the successive-shortest-path invariant: reduced costs stay
+non-negative on the residual graph). -/
+theorem ssp_optimal_partial (p q : Problem) (h : solve p = .ok q) (hcert : certifies q q.allocations = true) :
+    Feasible p q.allocations ∧ ∀ y, Feasible p y → costOf p q.allocations ≤ costOf p y := by
+  have e : q = { p with allocations := q.allocations } := by
+    unfold solve at h
+    split at h; · exact absurd h (by simp)
+    injection h with h; subst h; rfl
+  have hq := certifies_optimal q q.allocations hcert
+  have f : ∀ y, Feasible q y ↔ Feasible p y := by
+    intro y; rw [e]
+    constructor <;> (intro hh; exact ⟨hh.nonneg, hh.demand, hh.capacity⟩)
+  have c : ∀ y, costOf q y = costOf p y := by intro y; rw [e]; rfl
+  exact ⟨(f _).mp hq.1, fun y hy => by rw [← c, ← c]; exact hq.2 y ((f y).mpr hy)⟩
 
 end ColoVerif.C13
